@@ -33,10 +33,11 @@ type Event struct {
 	Vals  string         `json:"vals"`
 	Flags map[string]any `json:"flags"`
 	// end fields
-	Err      string `json:"err"`
-	FaultHit string `json:"faulthit"` // end: description of the call the fault plan hit ("" if none)
-	Calls    int    `json:"calls"`    // end: number of visible calls of the operation
-	Info string `json:"info"` // response of uninstall
+	Err      string   `json:"err"`
+	FaultHit string   `json:"faulthit"` // end: description of the call the fault plan hit ("" if none)
+	Calls    int      `json:"calls"`    // end: number of visible calls of the operation
+	Info     string   `json:"info"`     // response of uninstall
+	Kept     []string `json:"kept"`     // end of uninstall: names listed in the response as kept by resource policy
 	// full abstract state after the event
 	State *State `json:"state"`
 	// scenario id on reset
@@ -155,6 +156,9 @@ func (r *Recorder) Events() []Event {
 	for i := range out {
 		if out[i].Flags == nil {
 			out[i].Flags = map[string]any{} // TLC's JSON reader has no null
+		}
+		if out[i].Kept == nil {
+			out[i].Kept = []string{}
 		}
 	}
 	return out
